@@ -284,42 +284,69 @@ def r5_child_generators(ctx):
     good = outs == [("return", "Some", "child", ("next_u64",), (("parent-constructor", ("seed1",)),))]
     why = str(outs)
     ctx.check(good, "C08.R5", fn.key, "child-from-parent-seed-and-constructor", "a child generator is not (parent.constructor)(parent.next_u64()) with exactly one draw from the parent: %s" % why, detail=why[:160], loc=fn.loc())
-    wr = F.fn(RND + "::with_rng")
-    aggs = [st for b in wr.body.normal_blocks() for st in wr.body.stmts(b) if st[0] == "=" and st[2][0] == "agg" and st[2][1].get("adt") == RND]
-    good = len(aggs) == 1
-    why = ""
-    if good:
-        ops = aggs[0][2][2]
-        inner = wr.body.expr_of_op(ops[F.field_index(RND, "inner")])
-        seeds = [x for x in subexprs(inner) if x[0] == "call" and x[3]["f"].get("name") == "seed_from_u64"]
-        cons = strip(wr.body.expr_of_op(ops[ci]))
-        why = "inner=%s constructor=%s" % (expr_str(inner)[:80], expr_str(cons)[:80])
-        good = len(seeds) == 1 and seeds[0][3]["f"].get("gargs") == ["RNG"] and origin(seeds[0][2][0])[0] == ("arg", 1)
-        clo_key = None
-        for x in subexprs(cons):
-            if x[0] == "agg" and x[1] == "closure":
-                clo_key = x[2]
-                good = good and not x[4]
-        clo = F.fn_opt(clo_key) if clo_key else None
-        fnitem = [x for x in subexprs(cons) if x[0] == "fnconst"]
-        if clo is None and len(fnitem) == 1 and fnitem[0][1] == RND + "::with_rng" and (len(fnitem[0]) < 3 or not fnitem[0][2] or (fnitem[0][2].get("gargs") if isinstance(fnitem[0][2], dict) else None) in (None, ["RNG"])):
-            pass        # `Random::with_rng::<RNG>` used directly as the (capture-free) constructor
-        elif clo is None:
-            good = False
-        else:
-            rr = clo.body.expr_of_local(0)
-            good = good and rr[0] == "call" and rr[1] == RND + "::with_rng" and rr[3]["f"].get("gargs") == ["RNG"] and origin(rr[2][0])[0] == ("arg", 2)
-    ctx.check(good, "C08.R5", wr.key, "seeded-and-self-reproducing", "with_rng does not seed RNG::seed_from_u64(seed) with a capture-free constructor |s| with_rng::<RNG>(s): %s" % why, detail=why, loc=wr.loc())
-    nw = F.fn(RND + "::new")
-    rr = nw.body.expr_of_local(0)
-    good = rr[0] == "call" and rr[1] == RND + "::with_rng" and origin(rr[2][0])[0] == ("arg", 1) and "ChaCha" in (rr[3]["f"].get("gargs") or [""])[0]
-    ctx.check(good, "C08.R5", nw.key, "chacha-from-seed", "Random::new(seed) is not with_rng::<ChaCha..>(seed): %s" % expr_str(rr), loc=nw.loc())
+    # K6 with instantiated type parameters: what new / with_rng build, and what the stored constructor rebuilds
+    cfi = F.field_index(RND, "config")
+    seed_idx = F.field_index("mahf::state::random::RandomConfig", "seed")
+
+    def oracle6(interp, env, f, args, t, bb, path):
+        nm = f.get("name")
+        k = f.get("key", "")
+        if nm == "seed_from_u64" and len(args) == 1:
+            ty = (f.get("cgargs") or f.get("gargs") or ["?"])[0]
+            return Sym("rng<%s>(%s)" % (ty, getattr(load(interp, env, args[0]), "tag", load(interp, env, args[0]))))
+        if k in ("core::any::type_name",):
+            return Sym("name<%s>" % (f.get("cgargs") or f.get("gargs") or ["?"])[0])
+        if k == "alloc::boxed::Box::new":
+            return args[0]
+        return TOP
+    inl_r = lambda k: k.startswith("<mahf::state::random::") or k.startswith("mahf::state::random::")
+
+    def build(fn, args, generic):
+        it = install(Interp(fn.body, chain(oracle6, coll_oracle, std_oracle), args, facts=F, inline=inl_r, max_visits=6))
+        ps = it.run()
+        if len(ps) != 1 or ps[0].end != "return" or not (isinstance(ps[0].ret, Agg) and ps[0].ret.name == RND):
+            return None, "does not return one Random (%s)" % [(p.end, str(p.ret)[:60]) for p in ps], None
+        return ps[0].ret, None, it
+
+    def describe(r):
+        inner = r.fields[ii]
+        cfg = r.fields[cfi]
+        return getattr(inner, "tag", repr(inner)), getattr(cfg.fields[seed_idx], "tag", None) if isinstance(cfg, Agg) else None
+    for fn, args, ty, label in ((F.fn(RND + "::with_rng"), [Sym("seed")], "RNG", "seeded-and-self-reproducing"), (F.fn(RND + "::new"), [Sym("seed")], None, "chacha-from-seed")):
+        r, why, it = build(fn, args, ty)
+        good = r is not None
+        if good:
+            inner, cseed = describe(r)
+            if ty is None:
+                good = inner.startswith("rng<rand_chacha::") and inner.endswith(">(seed)") and cseed == "seed"
+                ty_seen = inner[4:inner.index(">(")]
+            else:
+                good = inner == "rng<%s>(seed)" % ty and cseed == "seed"
+                ty_seen = ty
+            why = "builds inner generator %s with recorded seed %s; expected <RNG>::seed_from_u64(seed) and the seed recorded" % (inner, cseed)
+            if good:
+                # the stored constructor, applied to another seed, builds the same kind of generator from THAT seed
+                outs = it.call_value(r.fields[ci], [Sym("seed2")])
+                kids = [o[0] for o in (outs or []) if o[2] == "return"]
+                good = len(kids) == 1 and isinstance(kids[0], Agg) and kids[0].name == RND and describe(kids[0]) == ("rng<%s>(seed2)" % ty_seen, "seed2")
+                why = "its stored constructor applied to seed2 builds %s; expected the same generator type seeded with seed2" % ([describe(k) if isinstance(k, Agg) else str(k) for k in kids],)
+        ctx.check(good, "C08.R5", fn.key, label, "%s %s" % (fn.key.split("::")[-1], why), detail=str(why)[:160], loc=fn.loc())
     # the erased generator only forwards to the seeded inner generator
     for f in F.all_fns:
         if f.impl_self_adt == RND and f.impl_trait and f.impl_trait.endswith("RngCore"):
-            calls = [t["f"].get("key") for b, t in f.body.calls()]
-            inner_only = all(origin(f.body.expr_of_op(t["args"][0]))[2][:1] == [F.field_index(RND, "inner")] for b, t in f.body.calls() if (t["f"].get("trait") or "").endswith("RngCore"))
-            ctx.check(inner_only and len([c for c in calls if c and c.endswith(f.name)]) == 1, "C08.R5", f.key, "forwards-to-inner", "%s does not simply forward to the inner generator: %s" % (f.name, calls), loc=f.loc())
+            seen = []
+
+            def fw(interp, env, f_, args, t, bb, path):
+                if (f_.get("trait") or "").endswith("RngCore") or f_.get("name") in ("next_u32", "next_u64", "fill_bytes", "try_fill_bytes"):
+                    seen.append((f_.get("name"), tuple(getattr(load(interp, env, a), "tag", repr(a)) for a in args)))
+                    return Sym("result-of-inner")
+                return TOP
+            argv = [Sym("self", {ii: Sym("inner", boxlike=True)})] + [Sym("arg%d" % k) for k in range(1, f.body.argc)]
+            it = install(Interp(f.body, chain(fw, coll_oracle, std_oracle), argv, facts=F, max_visits=6))
+            ps = it.run()
+            want = [(f.name, ("inner",) + tuple("arg%d" % k for k in range(1, f.body.argc)))]
+            good = len(ps) == 1 and ps[0].end == "return" and seen == want and (ps[0].ret == Sym("result-of-inner") or f.name == "fill_bytes")
+            ctx.check(good, "C08.R5", f.key, "forwards-to-inner", "%s calls %s and returns %s; expected exactly the inner generator's %s with the same arguments, its result returned" % (f.name, seen, [str(p.ret) for p in ps], f.name), loc=f.loc())
 
 
 INTERIOR = re.compile(r"core::cell::(Cell|RefCell|OnceCell|UnsafeCell)<|std::sync::(Mutex|RwLock|OnceLock|Once)\b|std::sync::poison::|core::sync::atomic::|std::sync::mpsc::|parking_lot::")
